@@ -21,6 +21,7 @@ fn main() {
         "C11" => props::c11::run(&mut ctx),
         "C12" => props::c12::run(&mut ctx),
         "C09" => props::c09::run(&mut ctx),
+        "C08" => props::c08::run(&mut ctx),
         "C01" => props::c01::run(&mut ctx),
         "C04" => props::c04::run(&mut ctx),
         "C06" => props::c06::run(&mut ctx),
